@@ -23,6 +23,7 @@ func (h seqHooks) RWUnlock(m *sync.RWMutex)       { m.Unlock() }
 func (h seqHooks) RLock(m *sync.RWMutex)          { m.RLock() }
 func (h seqHooks) RUnlock(m *sync.RWMutex)        { m.RUnlock() }
 func (h seqHooks) Go(f func())                    { go f() }
+func (h seqHooks) OnceDo(o *sync.Once, f func())  { o.Do(f) }
 func (h seqHooks) CondWait(c *sync.Cond)          { c.Wait() }
 func (h seqHooks) CondSignal(c *sync.Cond)        {}
 func (h seqHooks) CondBroadcast(c *sync.Cond)     {}
